@@ -46,7 +46,7 @@ var c13Grammar = struct{ scheme, userinfo, host, port, path, query, frag []strin
 	path:  []string{"", "/", "/cb", "/a/../b", "/%2e%2e/", "/..;/", "//evil.com", "/cb/..", "/\\..\\x", "/a..b",
 		// encodings that only turn into a delimiter or a dot segment when somebody decodes the path once more
 		"/o/%252e%252e/%252e%252e/up", "/cb%3Fnext=https:%2F%2Fevil.com%2F", "/cb%23x", "/cb%2F..%2Fy"},
-	query: []string{"", "?", "?x=1"},
+	query: []string{"", "?", "?x=1", "?a;b", "?next=%zz", "?&", "?next=https://evil.com;", "?;"},
 	frag:  []string{"", "#x", "#@app.example.com"},
 }
 
